@@ -5,6 +5,7 @@ from /repo's current source; Gen/EffectsRng.lean holds one `decide` obligation p
 meta-theorems.  The dynamic part is the failing-input search on the real code and validates the translator."""
 import sys, random as pyrandom, pickle
 from common import *  # noqa
+sys.path.insert(0, os.path.join(VERIF, 'translate')); import cores  # noqa: E402
 import effects_common as ec
 import effects_inputs as ei
 
@@ -528,7 +529,12 @@ def main():
     tr, res, summ = tres
     ec.selftest_breaks(ck, res)
     ck.count('translator_selftests', summ['selftests'])
+    # T-gen source pins (translate/cores.py): rename-tolerant normalised bodies of routines this check covers that have no interpreted tie
+    ck.cov['cores'] = cores.generate(families=['pingen', 'pinrew'])
+    for p_ in ck.cov['cores']['problems']:
+        ck.corr_break('core extractor (translate/cores.py)', p_)
     ok = ck.lean_gate(['BctVerif.Props.C05'], extra_modules=['BctVerif.Model.RngIR'], gen_modules=['BctVerif.Gen.EffectsRng'])
+    ck.lean_gate([], gen_modules=['BctVerif.Gen.CoresPinGen', 'BctVerif.Gen.CoresPinRewire'])
     mirror = {n: d['fails'] for n, d in res['rng'].items() if d['fails']}
     ec.name_failed_obligations(ck, 'BctVerif.Gen.EffectsRng', mirror)
     if ck.tier == 'thorough' and ok:
